@@ -20,7 +20,7 @@ EXPLANATION = (
     "definition on the paths where the loop body runs, one 'name = value' line per item of the same dict that sized the "
     "format, a numbered block per record; (R20.4) the text writer renders repr(rec) or format_map over ALL fields of the "
     "record with missing keys tolerated, and appends one newline. NOT decided: that a CSV parser recovers every cell, repr of "
-    "every field type, CSV reading/sniffing."
+    "every field type, what the sniffer concludes from its sample; (R20.5) only that the CSV reader sniffs from a block of the file rather than the header line."
 )
 RULE_SUMMARY = "instances: encode / open sinks, header-branch paths, uses of the line format, text-writer mappings"
 
@@ -256,6 +256,40 @@ def run(ctx):
         and not (isinstance(warg.left, ast.BinOp) and isinstance(warg.left.right, ast.Constant))
     ctx.check(len(wcalls) == 1 and nl_ok and enclosing_conditions(wcalls[0], tw) == [], "R20.4", "TextWriter.write:newline",
               "the rendering is not written once followed by one newline", tw, "buf + b'\\n'")
+    # "exactly the template applied to the fields": what is written is the rendering itself - every definition of the text that reaches the
+    # write is the format_map(...) result or repr(rec); a later rewrite of the rendered text (escape expansion, stripping) changes field values
+    if len(wcalls) == 1 and wcalls[0].args:
+        tcfg = CFG(tw)
+        wn = tcfg.node_of(wcalls[0])
+        written = [n for n in ast.walk(wcalls[0].args[0]) if isinstance(n, ast.Name) and n.id not in (rec, "self")]
+        for nm in written:
+            for d in tcfg.reaching_defs(nm.id).get(wn.id, set()):
+                da = tcfg.nodes[d].ast
+                v = da.value if isinstance(da, ast.Assign) and len(da.targets) == 1 and isinstance(da.targets[0], ast.Name) else None
+                pure = v is not None and ((isinstance(v, ast.Call) and isinstance(v.func, ast.Attribute) and v.func.attr == "format_map") or
+                                          (isinstance(v, ast.Call) and call_name(v) == "repr" and len(v.args) == 1 and norm(v.args[0]) == rec))
+                ctx.check(pure, "R20.4", f"TextWriter.write:text-written:{norm(da)[:40] if da is not None else nm.id}", f"the text that is written is (re)defined by `{norm(da)[:70] if da is not None else '?'}` "
+                          "after rendering: characters that come from field values are rewritten together with the template's own", da if da is not None else tw,
+                          "buf = template.format_map(...) | repr(rec), written as it is", key="R20.4:TextWriter.write:rendering-rewritten")
+    # ------------------------------------------------------------------ R20.5 the CSV dialect is sniffed from rows, not from the header alone
+    ctx.rule("R20.5", "CsvfileReader sniffs the dialect from a block read of the file (fp.read(n)): a sample that is only the header line contains no data rows, "
+                      "and the delimiter is then guessed from letter frequencies in the field names")
+    cri = ctx.anchor_func("flow.record.adapter.csvfile.CsvfileReader.__init__")
+    ccfg = CFG(cri)
+    sniffs = [c for c in calls_in(cri) if isinstance(c.func, ast.Attribute) and c.func.attr == "sniff" and c.args]
+    ctx.floor("R20.5", "dialect sniffing sites", len(sniffs), 1)
+    for sc in sniffs:
+        a0 = sc.args[0]
+        srcs = [a0]
+        if isinstance(a0, ast.Name):
+            srcs = []
+            for d in ccfg.reaching_defs(a0.id).get(ccfg.node_of(sc).id, set()):
+                da = ccfg.nodes[d].ast
+                srcs.append(da.value if isinstance(da, ast.Assign) and len(da.targets) == 1 else None)
+        block = bool(srcs) and all(v is not None and isinstance(v, ast.Call) and isinstance(v.func, ast.Attribute) and v.func.attr == "read" for v in srcs)
+        ctx.check(block, "R20.5", "CsvfileReader.__init__:sniff-sample", f"the dialect is sniffed from {[norm(v)[:40] if v is not None else '?' for v in srcs]}, not from a block of the file: with the "
+                  "header line alone a `|`- or tab-separated file whose field names repeat a letter more often than the separator is read with that letter as delimiter", sc,
+                  "csv.Sniffer().sniff(self.fp.read(n))", key="R20.5:CsvfileReader:sniff-sample-not-a-block")
     rr = ctx.anchor_func("flow.record.base.Record.__repr__")
     # some loop / comprehension over self._desc.fields whose element reads getattr(self, <loop variable>)
     rok = False
